@@ -135,6 +135,11 @@ def run(rep, tier, seed, b):
             base = ''.join('[' + bdy + ']' + ('.' if dot else '') for bdy, dot in rand_items(rng, 5))
             xs.append(base if rng.random() < 0.85 else gens.malformed(rng, base))
         items.append(('coll', xs))
+    # long strings: thousands of symbols, and thousands of dot-separated fragments (one item per symbol and per dot, whatever the length)
+    for k in (600, 1100, 2500):
+        items.append(('wf', [('Na+1', True)] * k))
+        items.append(('wf', [('C', False)] * k + [('O', True)] * k))
+        items.append(('wf', [(rng.choice(['C', '=N', 'Branch1', 'Ring1', 'nop', 'Fe+2']), rng.random() < 0.5) for _ in range(k)]))
     sm = load_smiles()
     rng.shuffle(sm)
     for smi in sm[:1500 if tier == 'quick' else len(sm)]:
